@@ -210,8 +210,8 @@ Section Recover.
   Proof.
     intros Ho Hl Hf Hn H0. unfold mac_marshal, fhdr_marshal. cbn [hdr fopts Model.fc devaddr fcnt fport frm].
     rewrite Ho. cbn [bind].
-    replace (15 <? N.of_nat (length ob) mod 256) with false by lia.
-    unfold fctrl_marshal. cbn [foptslen]. replace (15 <? N.of_nat (length ob) mod 256) with false by lia.
+    replace (15 <? N.of_nat (length ob)) with false by lia.
+    unfold fctrl_marshal. cbn [foptslen]. replace (15 <? N.of_nat (length ob)) with false by lia.
     cbn [bind]. destruct port as [q|].
     - destruct (negb (Nat.eqb (length O3) 0) && (q =? 0)) eqn:E.
       + apply andb_true_iff in E as [E1 E2]. apply N.eqb_eq in E2. subst q. rewrite (H0 eq_refl) in E1. discriminate.
